@@ -165,6 +165,8 @@ type OpSpec struct {
 	OpaqueDocument string
 	AnchorOrigin   interface{}
 	From, Until    int64
+	// SuffixType is the optional entity type carried in a create's suffix data.
+	SuffixType string
 }
 
 // Build produces the request bytes with the real client library.
@@ -177,6 +179,7 @@ func Build(s *OpSpec) ([]byte, error) {
 			RecoveryCommitment: s.NextRecovery.Commitment(s.Hash),
 			UpdateCommitment:   s.NextUpdate.Commitment(s.Hash),
 			AnchorOrigin:       s.AnchorOrigin,
+			Type:               s.SuffixType,
 			MultihashCode:      s.Hash,
 		})
 	case operation.TypeUpdate:
